@@ -95,6 +95,19 @@ def handleDotenv (j : Json) : Except String Json := do
   let anc : List (List String) ← fromJson? (← j.getObjVal? "ancestors")
   return Json.mkObj [("res", toJson (Dotenv.load c ⟨fun p => files.contains p, anc⟩))]
 
+def handleUnstable (j : Json) : Except String Json := do
+  let m ← unstableModuleFromJson (← j.getObjVal? "root")
+  let flag ← j.getObjValAs? Bool "flag"
+  let env : Option String ← fromJson? (← j.getObjVal? "env")
+  let cmdS ← j.getObjValAs? String "cmd"
+  let cmd := match cmdS with
+    | "run" => Unstable.Cmd.run
+    | "summary" => .summary
+    | "fmt" => .fmt
+    | _ => .other
+  return Json.mkObj [("proceeds", toJson (Unstable.proceeds flag env cmd m)),
+    ("docTruthy", toJson (Unstable.envTruthyDoc env)), ("implTruthy", toJson (Unstable.envTruthyImpl env))]
+
 def handle (line : String) : Json :=
   match Json.parse line with
   | .error e => Json.mkObj [("fatal", s!"parse: {e}")]
@@ -110,6 +123,7 @@ def handle (line : String) : Json :=
       | "workdir" => handleWorkdir j
       | "search" => handleSearch j
       | "dotenv" => handleDotenv j
+      | "unstable" => handleUnstable j
       | "shsplit" => handleShSplit j
       | _ => throw s!"unknown op {op}"
     match r with
